@@ -17,7 +17,8 @@ for d in sorted(glob.glob('/verif/seeded/*/'),key=lambda d:(os.path.basename(d.r
 s12='''## 12. Seeded changes and what catches them
 
 Each change was written by a fresh sub-agent that saw only the text of the property and its own scratch worktree of /repo
-(rounds 2-4 were also told which sites earlier reviewers had used, to push them to other clauses); the coordinator re-ran
+(rounds 2-7 were also told which sites earlier reviewers had used, to push them to other clauses; round 7 was told to aim at
+what the anchored functions DEPEND on: caches, backends, glue, defaults, constructors outside the anchored files); the coordinator re-ran
 the demonstration (fails with the patch, passes without: `tools/takeseed.sh`) and the check against a fresh worktree of
 HEAD with the patch, using a private copy of /verif (`tools/reseed.sh`). %d changes are kept; every one is reported as
 VIOLATION now (C17-1 and C18-1 only on the tree they were written for: their patches no longer apply to the repaired
@@ -44,6 +45,15 @@ What the misses taught (kept here rather than hidden):
   run-number assignment; C20-4 caches in the service): the models grew to include it.
 * **Pure-looking functions can mutate their arguments** (C05-1): the pure layer checks receiver, arguments and spare
   capacity after each call.
+* **What the anchored code depends on is part of the property** (round 7: C04-6 the configuration cache proxy, C05-6 and
+  C09-6 the task-class cache, C20-7 the Consul backend, C07-5/C07-6 the remote apricot client and server, C16-6 the executor
+  layer above the transitioners, C10-6 YAML defaults of call roles, C13-6/C14-6 role copies made by iterators, C02-6 a
+  shared slice helper of the roster, C12-6 pooled per-command objects): harnesses now drive the real glue (loopback gRPC,
+  fake Consul KV over HTTP, the real cache proxy over a mutable inventory, workflows written as YAML), and where a model
+  assumed a helper to be pure, fresh or last-write-wins, that assumption became a translator fact or a probe.
+* **History matters** (C15-5 a process-global expression cache, C20-6 a template cached for a missing entry, C05-6 class
+  reloads, C03-5/C03-6 benign traffic before the failure, C18-5/C18-6 operations before and after the reconnection):
+  the generators produce sequences on one long-lived service / manager, and the theorems state history-independence.
 * **A broken correspondence alone is a weak verdict** (C20-2, C09-1, C08-3, C18-2, C18-3, C01-1): every clause of a
   property now has a monitor class judged on the implementation's observed behaviour.
 '''%(len(rows),len(missed),', '.join(missed),len(nfif),', '.join(nfif),'\n'.join(rows))
